@@ -123,21 +123,40 @@ type RunConfig struct {
 func (p PipeS) toDef() definition.PipelineDef {
 	d := definition.PipelineDef{
 		Concurrency:                      p.Concurrency,
-		QueueLimit:                       p.QueueLimit,
+		QueueLimit:                       copyInt(p.QueueLimit),
 		StartDelay:                       time.Duration(p.StartDelayMs) * time.Millisecond,
 		ContinueRunningTasksAfterFailure: p.ContinueOnFail,
 		RetentionCount:                   p.RetCount,
 		RetentionPeriod:                  time.Duration(p.RetPeriodMs) * time.Millisecond,
-		Env:                              p.Env,
-		Tasks:                            map[string]definition.TaskDef{},
+		Env:                              copyEnv(p.Env), // nothing of the scenario is shared with the code under test: a version
+		Tasks:                            map[string]definition.TaskDef{}, // that writes into its definitions must not rewrite the scenario
 	}
 	if p.Replace {
 		d.QueueStrategy = definition.QueueStrategyReplace
 	}
 	for _, t := range p.Tasks {
-		d.Tasks[t.Name] = definition.TaskDef{Script: t.script(), DependsOn: t.DependsOn, AllowFailure: t.AllowFailure, Env: t.Env}
+		d.Tasks[t.Name] = definition.TaskDef{Script: append([]string(nil), t.script()...), DependsOn: append([]string(nil), t.DependsOn...), AllowFailure: t.AllowFailure, Env: copyEnv(t.Env)}
 	}
 	return d
+}
+
+func copyInt(p *int) *int {
+	if p == nil {
+		return nil
+	}
+	v := *p
+	return &v
+}
+
+func copyEnv(m map[string]string) map[string]string {
+	if m == nil {
+		return nil
+	}
+	c := make(map[string]string, len(m))
+	for k, v := range m {
+		c[k] = v
+	}
+	return c
 }
 
 func (d DefSet) toDefs() *definition.PipelinesDef {
@@ -525,6 +544,7 @@ func Generate(seed uint64, profile string, faults bool) *Scenario {
 		cfg.Store = "mem"
 		cfg.Readers = true
 		cfg.NoOracle = true
+		cfg.HTTP = g.p(500) // the HTTP handlers are the first user of the exported operations: 40% of the requests go through them
 		o.retention = true
 		mix = map[string]int{"schedule": 8, "cancel": 6, "read": 3, "list": 3, "iterate": 5, "save": 5, "reload": 2}
 		nClients = 2 + g.n(3)
